@@ -103,7 +103,7 @@ fn cond_shape(s: &Value, selftest: bool) -> Vec<Value> {
     // (it allocates the dummy verifier-data target with the OUTER configuration's cap height)
     let mut or_dummy_rows: Vec<Value> = vec![];
     let or_dummy = if s["probe_or_dummy"].as_bool().unwrap_or(false) {
-        let r = guarded(|| {
+        let built_od = guarded(|| {
             let mut bld = CircuitBuilder::<F, D>::new(CircuitConfig::standard_recursion_config());
             let c = bld.add_virtual_bool_target_safe();
             let pt = bld.add_virtual_proof_with_pis(&common);
@@ -112,7 +112,7 @@ fn cond_shape(s: &Value, selftest: bool) -> Vec<Value> {
             let data: CircuitData<F, C, D> = bld.build::<C>();
             Ok::<_, String>((data, c, pt, vd))
         });
-        match r {
+        match built_od {
             Ok(Ok((od, oc, opt, ovd))) => {
                 // the one-proof form behaves like the two-proof conditional with the dummy pair in slot 1:
                 // accept iff (condition ? the given pair is valid : true)
